@@ -19,9 +19,9 @@ def run(ctx):
             cfg2 = "SPECIFICATION Spec\nCONSTANTS\n  Family = \"%s\"\n  Stride = %d\n  Phase = %d\n" % (fam, stride, ctx.seed % stride)
             p2, _ = pipeline.gen_tlc(ctx, "PktGen", cfg2, "PktGen[%s]" % fam, "b" + fam, expect_min=5, workers=8, xmx="8g")
             rows = vlib.read_ndjson(p2)
-            step = max(1, len(rows) // 120)
+            step = max(1, len(rows) // 400)
             for r in rows[::step]:
-                if len(r["frame"]) <= 400:
+                if len(r["frame"]) <= 800:
                     base.append(dict(id=r["id"], entry=r["entry"], kind=r["kind"], frame=r["frame"]))
     sp, nb, nm = totality.mutate(ctx, [b for b in base if len(b["frame"]) < 2000], "pkt", depth2=not q, maxlen=2000)
     tr, recs = totality.run(ctx, sp, "pkt")
